@@ -468,7 +468,7 @@ Definition step_clo (s : bc) (e : event) : option bc :=
               | KPubcomp _ => Some (set_clos s (clo_set (clos s) k (CDel g)))
               | _ => Some (set_clos (clo_enqueue s c) (clo_set (clos s) k (CRun g)))
               end
-          | CDone => Some s                                   (* sync.Once: a second call does nothing *)
+          | CDone => guard (negb (in_closure s g)) s          (* sync.Once: a second call does nothing *)
           | _ => None
           end
       | None => None
@@ -497,7 +497,7 @@ Definition step_clo (s : bc) (e : event) : option bc :=
       | Some c =>
           match c_stat c with
           | CRun g' => guard (g =? g') (set_clos s (clo_set (clos s) k CDone))
-          | CDone => Some s
+          | CDone => guard (negb (in_closure s g)) s
           | _ => None
           end
       | None => None
